@@ -622,7 +622,7 @@ func dotAfterExpressionGuarded(p *Prog, rule string) *RuleResult {
 						if ifi, ok := pr.Instrs[len(pr.Instrs)-1].(*ssa.If); ok {
 							if f, k, eq, ok := fieldConstTest(ifi.Cond); ok {
 								taken := pr.Succs[0] == w.b // true edge
-								holdsEq := eq == taken       // on this edge: field == k ?
+								holdsEq := eq == taken      // on this edge: field == k ?
 								contradiction := false
 								for _, kf := range known {
 									if kf.field == f && kf.k == k && kf.eq != holdsEq {
